@@ -157,18 +157,25 @@ def generate(arg_list: typing.Sequence[str]) -> typing.Dict[str, typing.Any]:
     data: typing.Dict[str, typing.Any] = {}
     max_idx = len(arg_list) - 1
     for i, arg in enumerate(arg_list):
-        if arg.startswith("-"):
+        if arg.startswith("-") and not is_number(arg):
             arg = arg[1:] if not arg.startswith("--") else arg[2:]
-            if (i + 1 <= max_idx
-                    and arg_list[i + 1].startswith("-")) or i + 1 > max_idx:
+            if i + 1 > max_idx or (arg_list[i + 1].startswith("-")
+                                   and not is_number(arg_list[i + 1])):
                 data[arg] = True  # just a boolean flag
             else:
                 values: typing.List[typing.Any] = []
                 for j in range(i + 1, max_idx + 1):
                     value = arg_list[j]
-                    if value.startswith("-"):
+                    if value.startswith("-") and not is_number(value):
                         break
-                    values.append(float(value) if is_number(value) else value)
+                    if is_number(value):
+                        # Keep integer-valued options integer (e.g. for
+                        # options that are parsed with type=int).
+                        number = float(value)
+                        values.append(
+                            int(number) if number.is_integer() else number)
+                    else:
+                        values.append(value)
                 if len(values) == 1:
                     values = values[0]
                 data[arg] = values
